@@ -70,6 +70,10 @@ class _Capture(logging.Handler):
             self.msgs.append(str(record.msg))
 
 
+def rr_ff(j):
+    return j["res"]["ff"].lower()
+
+
 def _cell_job(job):
     from .. import runner
 
@@ -81,15 +85,16 @@ def _cell_job(job):
     wd = os.path.join(core.VERIF, ".work", f"c06-{os.getpid()}")
     os.makedirs(wd, exist_ok=True)
     seq, idx = tripeptide(res["pos"], res["group"] or "ALA")
-    open(os.path.join(wd, "in.pdb"), "w").write(gen.pdb_text([gen.peptide(seq)]))
-    num = idx + 1
+    start = job.get("start", 1)
+    open(os.path.join(wd, "in.pdb"), "w").write(gen.pdb_text([gen.peptide(seq, start=start)]))
+    num = idx + start
     rows = []
     if res["pos"] == "N":
-        rows.append({"res_name": "N+ ", "res_num": f"{num:>3}", "chain_id": "A", "group_label": f"N+  {num:>3} A", "pKa": PKA[res["sideT"]]})
+        rows.append({"res_name": "N+ ", "res_num": f"{num:>3}", "chain_id": "A", "group_label": f"{'N+':<3s}{num:>4d}{'A':>2s}", "pKa": PKA[res["sideT"]]})
     if res["pos"] == "C":
-        rows.append({"res_name": "C- ", "res_num": f"{num:>3}", "chain_id": "A", "group_label": f"C-  {num:>3} A", "pKa": PKA[res["sideT"]]})
+        rows.append({"res_name": "C- ", "res_num": f"{num:>3}", "chain_id": "A", "group_label": f"{'C-':<3s}{num:>4d}{'A':>2s}", "pKa": PKA[res["sideT"]]})
     if res["group"]:
-        rows.append({"res_name": res["group"], "res_num": num, "chain_id": "A", "group_label": f"{res['group']} {num:>3} A",
+        rows.append({"res_name": res["group"], "res_num": num, "chain_id": "A", "group_label": f"{res['group']:<3s}{num:>4d}{'A':>2s}",
                      "pKa": PKA[res["sideG"]]})
     applied = []
     in_pka = [False]
@@ -117,8 +122,9 @@ def _cell_job(job):
     lg.setLevel(logging.WARNING)
     lg.addHandler(cap)
     try:
-        r = runner.run([f"--ff={res['ff'].upper()}", "--titration-state-method=propka", "--with-ph=7.0",
-                        os.path.join(wd, "in.pdb"), os.path.join(wd, "o.pqr")])
+        r = runner.run([f"--ff={res['ff'].upper()}", "--titration-state-method=propka", "--with-ph=7.0"]
+                       + ([f"--ffout={job['ffout']}"] if job.get("ffout") else [])
+                       + [os.path.join(wd, "in.pdb"), os.path.join(wd, "o.pqr")])
     finally:
         lg.removeHandler(cap)
         lg.setLevel(old_level)
@@ -251,10 +257,20 @@ def run(ctx):
             continue
         seen.add(k)
         jobs.append({"res": rr, "model_patches": c["patches"]})
+    # twins of the cells under conditions the decision must not depend on: another naming scheme (--ffout), residue
+    # numbers with four digits (PROPKA packs "ASP1000 A")
+    twins = []
+    for n, j in enumerate(jobs):
+        if ctx.quick and (n + ctx.seed) % 3:
+            continue
+        other = "PARSE" if rr_ff(j) != "parse" else "AMBER"
+        twins.append(dict(j, ffout=other, variant=f"--ffout={other}"))
+        twins.append(dict(j, start=999, variant="residue numbers 999-1001"))
+    jobs += twins
     obs = core.pmap(_cell_job, jobs, chunksize=4)
     traces = []
     for j, o in zip(jobs, obs):
-        traces.append({"id": len(traces) + 1, "kind": "cell", "res": j["res"], "obs": o, "charges": []})
+        traces.append({"id": len(traces) + 1, "kind": "cell", "res": j["res"], "obs": o, "charges": [], "variant": j.get("variant", "")})
         ctx.evaluations += 1
         rr = j["res"]
         if j["model_patches"] or o["warned"]:
@@ -322,8 +338,10 @@ def run(ctx):
         acc, bad = v[2], v[3]
         rr = t["res"]
         for b in bad:
-            ctx.violation({"clause": b[0], "ff": rr["ff"], "group": b[1] or "(none)", "pos": rr["pos"]},
-                          f"cell {rr}: observed {t['obs']}", {"cell": rr, "observed": t["obs"]})
+            key = {"clause": b[0], "ff": rr["ff"], "group": b[1] or "(none)", "pos": rr["pos"]}
+            if t.get("variant"):
+                key["variant"] = t["variant"]
+            ctx.violation(key, f"cell {rr} {t.get('variant', '')}: observed {t['obs']}", {"cell": rr, "variant": t.get("variant", ""), "observed": t["obs"]})
         if not acc and not bad:
             ctx.drift.append({"cell": rr, "observed_patches": t["obs"]["patches"]})
     c0 = [t for t in traces if t["kind"] == "cell" and t["obs"]["patches"]]
